@@ -47,6 +47,9 @@ func (d c07dims) scenario() *DialScenario {
 		}
 		return SrvAction{}, false
 	}
+	if v := uint64(d.policy*7 + d.auth*31 + d.host*3 + d.adv*5 + d.stReply*11 + d.hs*13 + d.authList*17); v%2 == 1 {
+		sc.Variant = v
+	}
 	return sc
 }
 
